@@ -1536,7 +1536,7 @@ pub fn rename_variant(spec: &GSpec, t: &mut Tape) -> (GSpec, Vec<String>) {
             // keep the name: the derived names refer to it
             continue;
         }
-        if !derived.is_empty() && t.chance(235) {
+        if !derived.is_empty() && t.chance(250) {
             let k = t.below(derived.len());
             s.nts[i].name = derived.remove(k);
             new_names.push(s.nts[i].name.clone());
